@@ -2,6 +2,7 @@ import EV.Driver.Util
 import EV.Model.Issuance
 import EV.Model.Json
 import EV.Model.JsonText
+import EV.Driver.C11Pegged
 namespace EV.Driver.C11
 open EV EV.Driver EV.Codec
 
@@ -109,4 +110,6 @@ def tokenidOp : Handler
 def ops : List (String × Handler) :=
   [("issuanceids", issuanceidsOp), ("issuanceidsmem", issuanceidsmemOp), ("psetids", psetidsOp),
    ("entropy", entropyOp), ("assetid", assetidOp), ("tokenid", tokenidOp), ("contracthash", contracthashOp)]
+  -- the pegged-asset id of a network, `AssetId` text forms (EV.Model.PeggedAsset)
+  ++ C11Pegged.ops
 end EV.Driver.C11
